@@ -6,7 +6,7 @@
 From Coq Require Import NArith ZArith Bool List.
 From CppUVerif Require Import lib.CMem lib.CMemFacts gen.Gen_LoopC13.   (* before the model: its Ok/Oob/NoFuel are the unqualified ones below *)
 From CppUVerif Require Import lib.Str lib.CSem gen.Gen_LeafC13 C13_Text C13_Model C13_Proofs C13_Replace C13_Printable C13_Concat C13_Alloc C13_Atoi C13_Main C13_LeafTie
-                              C13_Pool C13_PoolProofs C13_Life C13_LifeProofs.
+                              C13_Pool C13_PoolProofs C13_Life C13_LifeProofs C13_LifeProofs2 C13_LifeSplit C13_LifeMain.
 From CppUVerif Require Import C13_SrcTie C13_SrcTie2 C13_SrcTie3 C13_SrcTie4 C13_SrcSpec C13_SrcSpec2 C13_SrcSpec3 C13_SrcSpec4.
 Import ListNotations.
 Local Open Scope N_scope.
@@ -246,13 +246,33 @@ Theorem C13_scn_paired : forall s, o_paired (run_scn s) = true.
 Proof. exact pairing_scn_ok. Qed.
 Print Assumptions C13_scn_paired.
 
-(* ... and the executable oracle accepts the model observation of every valid scenario whose value clause is proved (all but split,
-   subStringFromTill and the bit / binary formatters, whose values the check only compares and judges on its runs) *)
-Theorem C13_scn_meets_spec : forall s, valid_scn s = true -> value_proved s = true -> spec_scn s (run_scn s) = true.
+(* split(delimiter, collection), every string and one-byte delimiter: pieces keep their delimiter, a non-empty remainder is last, the
+   empty string is one empty piece (loop lemmas of C12_Safe.v reused) *)
+Theorem C13_split_spec : forall a d, NN a -> d <> 0 -> vlist (split_m (cs a) (cs [d])) = VL (t_split_all d a).
+Proof. exact split_ok. Qed.
+Print Assumptions C13_split_spec.
+
+Theorem C13_subStringFromTill_spec : forall a c1 c2, NN a -> N.of_nat (length a) < NPOS ->
+  vstr (subStringFromTill_m (cs a) c1 c2) = VB (t_from_till a c1 c2).
+Proof. exact fromTill_ok. Qed.
+Print Assumptions C13_subStringFromTill_spec.
+
+(* StringFromMaskedBits (after the D11b repair), every 64-bit value and mask, every byte count *)
+Theorem C13_maskedBits_spec : forall v m byteCount, v < ULONG_MOD -> m < ULONG_MOD -> maskedBits_m v m byteCount = Ok (t_masked v m byteCount).
+Proof. exact masked_ok. Qed.
+Print Assumptions C13_maskedBits_spec.
+
+Theorem C13_binary_spec : forall bytes, Forall (fun c => c < 256) bytes -> binary_m bytes (length bytes) = Ok (t_binary bytes).
+Proof. exact binary_ok. Qed.
+Print Assumptions C13_binary_spec.
+
+(* ... and the executable oracle used on the implementation's observations accepts the model observation of EVERY valid scenario
+   (single operations, repeat, padding, split, subStringFromTill, the formatters, operation sequences), which is never an error value *)
+Theorem C13_scn_meets_spec : forall s, valid_scn s = true -> spec_scn s (run_scn s) = true.
 Proof. exact scn_meets_spec. Qed.
 Print Assumptions C13_scn_meets_spec.
 
-Theorem C13_scn_safe : forall s, valid_scn s = true -> value_proved s = true -> o_val (run_scn s) <> VErr.
+Theorem C13_scn_safe : forall s, valid_scn s = true -> o_val (run_scn s) <> VErr.
 Proof. exact scn_safe. Qed.
 Print Assumptions C13_scn_safe.
 
